@@ -51,14 +51,25 @@ def suites(rng, tier):
             {"suite": "hops", "name": "hops-handlers", "lines": c, "distribution": {"cases": k}}]
 
 
+def _trace(suite, case, impl):
+    # the hops output format is the risk output format; a hops case is a risk case with Fixed oracles only
+    return R.Trace(case if suite == "risk" else R.hops_to_risk(case), impl)
+
+
 def nontrivial(suite, case, impl):
-    if suite == "risk":
-        return R.liq_nontrivial(R.Trace(case, impl))
-    tr = O.Trace(case, impl)
-    return tr.ok and any(op[0] == 17 and res == "OK" for op, (res, _, _) in zip(tr.c["ops"], tr.steps))
+    return R.liq_nontrivial(_trace(suite, case, impl))
+
+
+RATIO_KEYS = ("liquidation-relief-not-95pct", "liquidator-payment-not-97.5pct", "insurance-fee-not-2.5pct")
 
 
 def oracle(suite, case, impl):
-    if suite == "risk":
-        return R.oracle_liq(R.Trace(case, impl))
-    return O.oracle_c05(O.Trace(case, impl))
+    v = R.oracle_liq(_trace(suite, case, impl))
+    if v or suite == "risk":
+        return v
+    # the shared hops oracle as a second opinion; its fee-ratio checks use a fixed tolerance that does not cover
+    # degenerate prices of a few raw units (2^-48 dollars), where the proved rounding bound (used by oracle_liq) applies
+    v = O.oracle_c05(O.Trace(case, impl))
+    if v and v["key"] in RATIO_KEYS:
+        return None
+    return v
